@@ -1484,6 +1484,9 @@ class Pregex():
         if pattern == "[a]":
             return _Type.Class, True
         elif __is_group(pattern):
+            if _re.match(r"\(\?<?=", pattern) is not None:
+                # A positive lookaround on its own (asserted on the empty pattern).
+                return _Type.Assertion, False
             return _Type.Group, True
 
         # Replace every group with a simple character.
